@@ -1585,7 +1585,7 @@ def balance_stoichiometry(
 
     if 0 in sol:
         raise ValueError("Superfluous species given.")
-    if any(x.is_number and x.is_negative for x in sol):
+    if any(x.is_negative for x in sol):
         raise ValueError("Failed to balance reaction (negative coefficient needed)")
     if underdetermined:
         if any(x == sympy.nan for x in sol):
